@@ -73,9 +73,7 @@ def run(ctx):
         else:
             # the value returned is a copy made inside the block (decided by R-ESC below);
             # additionally the copy is taken from the subscript itself
-            rets = [n for n in own_nodes(f.node) if isinstance(n, ast.Return)]
-            ctx.decide(len(rets) == 1, 'R-FLOW', 'D1', f, rets[0] if rets else None, 'single-return',
-                       f'{f.qualname} has a single return', detail='several returns')
+            pass
     nblocks = esc_obligations(ctx, 'D2')
     ctx.floor('C12 with-blocks on map-yielding managers', nblocks, 14)
     pair_obligations(ctx, 'D3')
